@@ -412,7 +412,19 @@ class Check(common.Check):
         pre = [rng.choice(['ar', 'ar', 'kr']) for _ in range(rng.randint(1, 5))]
         npre = len(pre)
         self_ = [{'u': rng.randrange(npre)} for _ in range(rng.choice([1, 2, 2, 3, 4]))]
+        shape = rng.random()
+        if shape < 0.25:
+            # plain NUMBER channels among the units (a folded `sig * [1, 0, 0.5]`): a number stays a number
+            for i in range(len(self_)):
+                if rng.random() < 0.5:
+                    self_[i] = rng.choice([0, 0.0, 0.5, 1, 2])
+        elif shape < 0.45:
+            # nested receiver (rows of a multi-output source): row i gets element i of every list argument
+            for i in range(len(self_)):
+                if rng.random() < 0.6:
+                    self_[i] = {'c': [{'u': rng.randrange(npre)} for _ in range(rng.randint(1, 3))]}
         if entry is None and rng.random() < 0.06:
+            self_ = [x if isinstance(x, dict) and 'u' in x else {'u': 0} for x in self_]
             nm = rng.choice(['dup', 'sum'])
             return {'k': 'meth', 'name': nm, 'self': self_, 'args': [rng.randint(1, 4)] if nm == 'dup' and rng.random() < 0.7 else [],
                     'pre': pre, 'strs': STR_VOCAB}
@@ -737,6 +749,10 @@ class Check(common.Check):
             # an expansion must give a ChannelList at the top
             if not (isinstance(obs['ret'], list) and obs['ret'][:1] == ['c']):
                 return {'what': 'expansion does not return a ChannelList', 'signature': sig + ':type'}
+        if k == 'meth' and '"?"' in json.dumps(obs['ret']):
+            return {'what': 'the result holds an object that is neither a number, a unit, an output proxy nor a '
+                            'list (e.g. a parameter wrapper): a number channel must stay a number',
+                    'signature': sig + ':element-type'}
         bad = match_law(obs['ret'], want, [])
         if bad:
             return {'what': bad, 'signature': sig + ':law', 'expected': want}
